@@ -117,6 +117,24 @@ def scalar_none_bool_str_roundtrip__kf_F_C14_1(v: Union[None, bool, str]) -> boo
 
 
 
+def scalar_keyword_like_strings_roundtrip(i: int) -> bool:
+    """
+    pre: 0 <= i < 16
+    post: _
+    """
+    words = ["Inf", "INF", "-Inf", "iNf", "inf ", " inf", "+inf", "nan", "NaN", "None", "none", "true", "True", "false", "1e5", "0x10"]
+    return _rt(words[i])
+
+def scalar_keyword_like_strings_roundtrip__reach(i: int) -> bool:
+    """
+    pre: 0 <= i < 16
+    post: False
+    """
+    words = ["Inf", "INF", "-Inf", "iNf", "inf ", " inf", "+inf", "nan", "NaN", "None", "none", "true", "True", "false", "1e5", "0x10"]
+    return _rt(words[i])
+
+
+
 def scalar_int_roundtrip(v: int) -> bool:
     """
     post: _
@@ -865,7 +883,7 @@ if __name__ == '__main__':
     from math import inf, nan
     import sys
     try:
-        r = form_int_roundtrip_value_and_enabled(0, False, False, False, False, False)
+        r = form_int_roundtrip_value_and_enabled(1, False, False, False, False, False)
     except BaseException as e:
         print('RAISED', repr(e)); r = False
     print('condition form_int_roundtrip_value_and_enabled:', r)
